@@ -21,7 +21,7 @@ from ..gen import flowjson as FJ
 from ..gen import sheets as G
 
 MANIFEST = dict(
-    text="Proof: (1) Lean theorem roundtrip_equiv_of_cert (validated bisimulation certificate ⇒ equal traces for every contact input sequence at the observation level of C04's statement: action content, operands, tests, arguments, test order, category names, timeouts, destinations) applied by the driver to each original flow and the flow recompiled from the REAL files written by flows_to_sheets (csv/xlsx × strip_uuids × numbered); plus per-flow checks of uuid / node-grouping preservation without --strip_uuids. (2) 'same actions with the same content' is proved universally on a Lean model of the action codec (Rpft/ActionCodec.lean: toFields = Action.get_row_model_fields of every action class + FlowRowModel validation; ofFields = FlowParser._get_row_action / _get_row_node): theorem action_roundtrip — for EVERY action inside the explicit decidable predicate Expressible (unbounded texts, attachment / quick-reply / variable lists, header and amount dictionaries) the exported row fields compile back to exactly that one action, content equal up to the invented action / templating-instance uuid; expressible_iff_roundtrip — Expressible is EXACTLY the set of actions that come back intact (so no clause can be dropped), with a kernel-checked negative witness per clause (needs_…) replayed on the real code; group actions with ANY number of groups: group_action_comes_back / group_names_roundtrip (every group name comes back, in order, for every list), expressibleMod_iff_roundtrip — the round trip is exact up to the uuids of the groups after the first (obj_id is one cell: it carries the first group's uuid), exactly on ExpressibleModTailUuids, and expressible_iff_mod_and_tail_uuids — fully intact iff moreover those uuids are the ones a sheet gives back (witness needs_tail_uuids_kept = open finding F-C04-g); action_roundtrip_merged — the same for rows merged into an existing node (compiled by _get_row_action alone); constants tied by tables_agree_actcodec. exported_row_ids_unique (both id modes). (3) The EXPORTER preserves the flow's graph, universally (Props/C04_Graph.lean, on the exporter model Rpft/Export.lean that the C17 check ties to the real to_rows on every generated flow): the sheet is READ as a graph the way the sheet compiler resolves it (Rpft/ExportGraph.lean: an edge cell leaves the row named in `from` and enters its own row, on a go_to row the row named there; rows top to bottom, cells left to right = the order in which a router gets its cases back) and for EVERY flow (joins, cycles, self loops, parallel edges, unreachable nodes, duplicate uuids, dangling exits; unbounded) — export_preserves_graph: the node rows of the sheet are exactly the rows of the nodes reachable from the first node, each node once, rows consecutive and in order with their content (payloads_preserved, unreachable_not_exported), and the graph read from the sheet is, as a multiset, exactly: the start edge, the blank edges chaining the rows of one node, and ONE edge per exit that has a destination, with the exit's label, from the node's LAST row to the FIRST row of the destination node, directly or through a go_to row with exactly one edge and one target (out_edges_perm, exit_target_exported, export_no_invented_edges); exits that lead nowhere leave no trace (export_drops_dangling_exits = finding F-C04-a as a theorem, witness dangling_category_vanishes). Rows of one node: the compiler's merge rule (a row joins the node its _nodeId names iff it has exactly one edge, unconditional, from a row of that node) regroups the rows of an exported sheet exactly as the exporter grouped them (rows_grouped_as_exported), and the NODE graph read with that merging is the start edge plus one edge per connected exit between the reachable nodes (node_graph_preserved); without _nodeId every row is its own node (ungrouped_without_node_ids). ORDER of the edges leaving a node = order in which the recompiled router gets its tests: edges into the same row always keep their exit order (out_edges_same_target_order); the whole exit order is kept when no edge of the node was prepended to an existing row (out_edges_order_of_not_prepended; in particular on sheets without joins, out_edges_order_of_join_free; cycles and self loops allowed), and for a node without go_to edge it is kept IF AND ONLY IF the targets of its exits stand in the sheet in exit order (out_edges_order_iff_targets_sorted) — the negation is exactly finding F-C04-b, kernel-checked witness order_changes_at_join (t1→x, t2→y, y→x comes back as t2, t1), negative witnesses for every hypothesis. Errors: export_ok_iff (accepted iff every reachable node has a row model and every reachable exit names a node), export_error_cases / export_noNode_iff / export_noRows_iff, stripped_error_iff (the id remapping never fails: every id a row mentions is the id of a row). export_preserves_graph_stripped: the final rows (readable or numbered ids) are the temp-id rows renamed by a function injective on the row ids that never yields the literal start, so every statement holds for the final sheet. Tie: the Lean reading (driver op export.graph) of the REAL rows of the real to_rows (both id modes) is compared on every generated flow of the flow stream (also outside Expressible) with the real flow's edge list and with each of these statements. Universal over whole flows (exporter + cells + compiler composed) only per explored flow (C04_full visible).",
+    text="Proof: (1) Lean theorem roundtrip_equiv_of_cert (validated bisimulation certificate ⇒ equal traces for every contact input sequence at the observation level of C04's statement: action content, operands, tests, arguments, test order, category names, timeouts, destinations) applied by the driver to each original flow and the flow recompiled from the REAL files written by flows_to_sheets (csv/xlsx × strip_uuids × numbered); plus per-flow checks of uuid / node-grouping preservation without --strip_uuids. (2) 'same actions with the same content' is proved universally on a Lean model of the action codec (Rpft/ActionCodec.lean: toFields = Action.get_row_model_fields of every action class + FlowRowModel validation; ofFields = FlowParser._get_row_action / _get_row_node): theorem action_roundtrip — for EVERY action inside the explicit decidable predicate Expressible (unbounded texts, attachment / quick-reply / variable lists, header and amount dictionaries) the exported row fields compile back to exactly that one action, content equal up to the invented action / templating-instance uuid; expressible_iff_roundtrip — Expressible is EXACTLY the set of actions that come back intact (so no clause can be dropped), with a kernel-checked negative witness per clause (needs_…) replayed on the real code; group actions with ANY number of groups: group_action_comes_back / group_names_roundtrip (every group name comes back, in order, for every list), expressibleMod_iff_roundtrip — the round trip is exact up to the uuids of the groups after the first (obj_id is one cell: it carries the first group's uuid), exactly on ExpressibleModTailUuids, and expressible_iff_mod_and_tail_uuids — fully intact iff moreover those uuids are the ones a sheet gives back (witness needs_tail_uuids_kept = open finding F-C04-g); action_roundtrip_merged — the same for rows merged into an existing node (compiled by _get_row_action alone); constants tied by tables_agree_actcodec. exported_row_ids_unique (both id modes). (3) The EXPORTER preserves the flow's graph, universally (Props/C04_Graph.lean, on the exporter model Rpft/Export.lean that the C17 check ties to the real to_rows on every generated flow): the sheet is READ as a graph the way the sheet compiler resolves it (Rpft/ExportGraph.lean: an edge cell leaves the row named in `from` and enters its own row, on a go_to row the row named there; rows top to bottom, cells left to right = the order in which a router gets its cases back) and for EVERY flow (joins, cycles, self loops, parallel edges, unreachable nodes, duplicate uuids, dangling exits; unbounded) — export_preserves_graph: the node rows of the sheet are exactly the rows of the nodes reachable from the first node, each node once, rows consecutive and in order with their content (payloads_preserved, unreachable_not_exported), and the graph read from the sheet is, as a multiset, exactly: the start edge, the blank edges chaining the rows of one node, and ONE edge per exit that has a destination, with the exit's label, from the node's LAST row to the FIRST row of the destination node, directly or through a go_to row with exactly one edge and one target (out_edges_perm, exit_target_exported, export_no_invented_edges); exits that lead nowhere leave no trace (export_drops_dangling_exits = finding F-C04-a as a theorem, witness dangling_category_vanishes). Rows of one node: the compiler's merge rule (a row joins the node its _nodeId names iff it has exactly one edge, unconditional, from a row of that node) regroups the rows of an exported sheet exactly as the exporter grouped them (rows_grouped_as_exported), and the NODE graph read with that merging is the start edge plus one edge per connected exit between the reachable nodes (node_graph_preserved); without _nodeId every row is its own node (ungrouped_without_node_ids). ORDER of the edges leaving a node = order in which the recompiled router gets its tests: edges into the same row always keep their exit order (out_edges_same_target_order); the whole exit order is kept when no edge of the node was prepended to an existing row (out_edges_order_of_not_prepended; in particular on sheets without joins, out_edges_order_of_join_free; cycles and self loops allowed), and for a node without go_to edge it is kept IF AND ONLY IF the targets of its exits stand in the sheet in exit order (out_edges_order_iff_targets_sorted) — the negation is exactly finding F-C04-b, kernel-checked witness order_changes_at_join (t1→x, t2→y, y→x comes back as t2, t1), negative witnesses for every hypothesis. Errors: export_ok_iff (accepted iff every reachable node has a row model and every reachable exit names a node), export_error_cases / export_noNode_iff / export_noRows_iff, stripped_error_iff (the id remapping never fails: every id a row mentions is the id of a row). export_preserves_graph_stripped: the final rows (readable or numbered ids) are the temp-id rows renamed by a function injective on the row ids that never yields the literal start, so every statement holds for the final sheet. PATHS (Props/C04_Paths.lean): the graph result lifted to behaviour — two labelled transition systems over exit labels, the flow (FlowStep: exit (l, some d) and find_node d) and the sheet as the compiler reads it with node merging (Sheet.Step: an edge, read through go_to rows, from the LAST row of a group of rows into the group of its target row); for EVERY accepted flow, relationally (no determinism assumed): sheet_start, node_group_exported (the group of a reachable node = its rows, in order, same payloads, linked by the blank chain edges), sheet_nodes_are_flow_nodes, firstId_injective, export_step (one-step correspondence both ways), export_out_perm, export_paths (for every label sequence the sheet paths from the group of a reachable node are exactly the images of the flow paths: a functional bisimulation node -> its group of rows), export_simulates / export_simulated_by / export_paths_from_start (same end node, same payload trace), dangling_label_no_step (F-C04-a: a label whose exit leads nowhere is a transition on neither side; 'ends there' is not claimed), out_order_iff_edges_order, export_test_order_of_join_free / export_test_order_of_not_prepended / export_test_order_iff_targets_sorted / export_test_order_paths (under the order criterion every node along a path has the same ORDERED (label, target) list: first-match takes the same branch), export_deterministic under the decidable LabelsDistinct (witness needs_labels_distinct); final sheet in both id modes at the row level (--strip_uuids: every row its own node): export_row_paths, export_row_paths_final (the row graph is the flow with every node expanded into the chain of its row models), flowStep_expands; witnesses exG_flow_path, exG_sheet_path, exG_path_trace, exG_row_path (self loop, cycle, join). Open: final_grouping_renamed_full (merge rule under an injective renaming of row ids). Tie: the Lean reading (driver op export.graph) of the REAL rows of the real to_rows (both id modes) is compared on every generated flow of the flow stream (also outside Expressible) with the real flow's edge list and with each of these statements. Universal over whole flows (exporter + cells + compiler composed) only per explored flow (C04_full visible).",
     ref="§5 C04",
     note="Trusts: Lean kernel; certificate search untrusted; harness canonicalisers (flows.canon_flow, actcodec.canon_action); Python mirror of the exporter DFS (gen/flowjson.py order_stable) defines the OrderStable part of the flow domain; CPython float(repr(x)) == x (a float amount is carried as its repr text); the cell layer between row model and sheet is C07's model — here it is exercised on the real code only (direct oracle through the real RowDataSheet / SheetParser, single row and shared sheet). Action codec model is tied on generated actions of every kind (mostly expressible + one-clause-broken + pass-through types) and on generated row fields (valid and malformed) with ASCII-cased names and ASCII digits. Flow domain `Expressible` (gen/flowjson.py docstring); action domain `ActionCodec.Expressible`. Known findings exercised deterministically outside the main streams: F-C04-a (unconnected conditional categories vanish), F-C04-b (test order at joins), F-C04-d (webhook headers), F-C04-e (group-split category names), F-C04-f (webhook body next to a message_text column), F-C04-g (narrowed after the repair F-C04-k: without --strip_uuids the uuids of the groups AFTER THE FIRST of a group action are not carried — obj_id is one cell; main streams generate multi-group actions and compare them up to exactly that), F-C04-h (field key regenerated from the field name), F-C04-i (set_contact_channel exported under message_text), F-C04-j (templating variables padded to the longest list of the sheet).",
     technique="Lean 4 proof of certificate soundness + verified checker on original vs recompiled-from-real-files flow; Lean 4 proof of the action codec round trip (all expressible actions) + differential tie and direct oracle on the real export / compile code",
